@@ -18,11 +18,15 @@ import traceback
 
 
 def main():
+    if sys.argv[1] == "--fork":
+        return fork_main(sys.argv[2:])
     with open(sys.argv[1]) as f:
         job = json.load(f)
+    run_job(job)
+
+
+def import_library(job):
     repo = job["repo"]
-    workdir = job["workdir"]
-    os.chdir(workdir)
     sys.dont_write_bytecode = True
     sys.path.insert(0, repo)
     sys.path.insert(0, job["verif"])
@@ -31,6 +35,51 @@ def main():
     import bisturi.field
     import bisturi.codegen
     assert os.path.realpath(os.path.dirname(bisturi.__file__)) == os.path.realpath(os.path.join(repo, "bisturi"))
+
+
+def fork_main(paths):
+    """python -m bvf.child --fork <jobA.json> <jobB.json>: the library is imported ONCE, then one worker per job is forked
+    (as a multiprocessing / pre-fork server would): whatever the library computed at import time is shared by the workers.
+    Each worker writes its report to job['report_path']."""
+    jobs = []
+    for p in paths:
+        with open(p) as f:
+            jobs.append(json.load(f))
+    import_library(jobs[0])
+    fds = lambda job: [fd for fd in ((job.get("hooks") or {}).get("announce_fd"), (job.get("hooks") or {}).get("grant_fd")) if fd is not None]
+    pids = []
+    for job in jobs:
+        pid = os.fork()
+        if pid == 0:
+            for other in jobs:
+                if other is not job:
+                    for fd in fds(other):
+                        try:
+                            os.close(fd)
+                        except OSError:
+                            pass
+            run_job(job, imported=True)      # never returns
+        pids.append(pid)
+    for job in jobs:
+        for fd in fds(job):
+            try:
+                os.close(fd)
+            except OSError:
+                pass
+    rc = 0
+    for pid in pids:
+        _, status = os.waitpid(pid, 0)
+        if status:
+            rc = 1
+    sys.stdout.flush()
+    os._exit(rc)
+
+
+def run_job(job, imported=False):
+    workdir = job["workdir"]
+    os.chdir(workdir)
+    if not imported:
+        import_library(job)
     if job.get("bytecode"):
         sys.dont_write_bytecode = False      # only now: /repo itself is never polluted
     obs = Observer(job)
@@ -43,8 +92,12 @@ def main():
     finally:
         obs.active = False
     report["completed"] = True
-    sys.stdout.write("REPORT " + json.dumps(report) + "\n")
-    sys.stdout.flush()
+    if job.get("report_path"):
+        with open(job["report_path"], "w") as f:
+            f.write("REPORT " + json.dumps(report) + "\n")
+    else:
+        sys.stdout.write("REPORT " + json.dumps(report) + "\n")
+        sys.stdout.flush()
     os._exit(0)
 
 
